@@ -36,6 +36,7 @@ type Result struct {
 	Scenario   interface{}     `json:"scenario,omitempty"`
 	Gen        []uint32        `json:"gen,omitempty"`
 	Sched      []uint32        `json:"sched,omitempty"`
+	Blocks     [][2]int        `json:"blocks,omitempty"`
 	Race       string          `json:"race,omitempty"`
 	Flavour    string          `json:"flavour,omitempty"`
 	LogHash    uint64          `json:"log_hash"`
